@@ -16,7 +16,11 @@
     $project    (inclusion / exclusion) the projection of every document
     $unwind     one document per element of the array, the field replaced by the element; a
                 missing / null / empty-array field drops the document unless
-                preserveNullAndEmptyArrays; a non-array value counts as a one-element array
+                preserveNullAndEmptyArrays; a non-array value counts as a one-element array;
+                includeArrayIndex names a field that receives the position of the element —
+                null on a value that is no array and on a document that is merely preserved; a
+                dotted name creates the sub-documents it goes through (whatever is there and is
+                no document is replaced)
     $group      partitions the input by key value; each group is folded by its accumulators over
                 the group's documents in input order (MongoDB leaves the order of the groups
                 unspecified: `specGroups` lists them by first appearance and is compared as a
@@ -70,18 +74,46 @@ def sliceCount : Val → Option Int
 def countName (s : String) : Bool :=
   s ≠ "" && !startsWithDollar s && !s.toList.contains '.'
 
-/-- `$unwind` of the top-level field `f`; `ix` = the `includeArrayIndex` field name: the position
-    of the element, null for a value that is not an array and for a preserved document -/
+/-- the fields with the (dotted) field `k₁.k₂.…` set to `v`: the sub-documents on the way are
+    created, and whatever is there without being a document is replaced by a new one -/
+def setNested : List String → Val → Fields → Fields
+  | [], _, fs => fs
+  | [k], v, fs => dset k v fs
+  | k :: k' :: ks, v, fs =>
+    dset k (.doc (setNested (k' :: ks) v (match dget k fs with | some (.doc g) => g | _ => []))) fs
+
+/-- the value under the dotted field `k₁.k₂.…`, going through sub-documents only -/
+def getNested : List String → Fields → Option Val
+  | [], _ => none
+  | [k], fs => dget k fs
+  | k :: k' :: ks, fs =>
+    match dget k fs with
+    | some (.doc g) => getNested (k' :: ks) g
+    | _ => none
+
+/-- the index `i` written under the `includeArrayIndex` name, when there is one -/
+def withIndex (ix : Option String) (i : Val) (gs : Fields) : Fields :=
+  match ix with
+  | some n => setNested (splitDots n) i gs
+  | none => gs
+
+/-- `$unwind` of the top-level field `f`; `ix` = the `includeArrayIndex` field name (possibly
+    dotted): the position of the element, null for a value that is not an array and for a
+    preserved document; the index is written after the element -/
 def specUnwindDoc (f : String) (preserve : Bool) (ix : Option String) : Val → List Val
   | .doc fs =>
-    let withIx (i : Val) (gs : Fields) : Fields :=
-      match ix with | some n => dset n i gs | none => gs
+    let withIx := withIndex ix
     match dget f fs with
     | none | some .null => if preserve then [.doc (withIx .null fs)] else []
     | some (.arr []) => if preserve then [.doc (withIx .null (derase f fs))] else []
     | some (.arr xs) => (xs.zipIdx).map (fun xi => .doc (withIx (.int xi.2) (dset f xi.1 fs)))
     | some _ => [.doc (withIx .null fs)]
   | d => [d]
+
+/-- an index field name the oracle speaks about: non-empty components, no `$`, and not the
+    unwound field itself or a name below it -/
+def indexName (f n : String) : Bool :=
+  !n.toList.contains '$' && (splitDots n).all (· ≠ "") && (splitDots n).head? != some f
 
 /-- a top-level field path `"$name"` -/
 def fieldRef (v : Val) : Option String :=
@@ -102,9 +134,7 @@ def unwindArgs : Val → Option (String × Bool × Option String)
         (fieldRef p).bind (fun f =>
           let ix : Option (Option String) := match dget "includeArrayIndex" o with
             | none => some none
-            | some (.str n) =>
-              if n = "" || n = f || n.toList.contains '.' || n.toList.contains '$' then none
-              else some (some n)
+            | some (.str n) => if indexName f n then some (some n) else none
             | some _ => none
           ix.bind (fun ix =>
             match dget "preserveNullAndEmptyArrays" o with
